@@ -11,7 +11,7 @@
 From Coq Require Import ZArith List Bool Sorted Lia.
 Require Import DS.Model.MetaBase DS.Gen.GenRepoint DS.Model.Meta DS.Model.MetaSpec.
 Require Import DS.Proofs.RepointProofs DS.Proofs.MetaProofs.
-Require Import DS.Model.MetaPy DS.Gen.GenMeta DS.Proofs.MetaGenProofs.
+Require Import DS.Model.MetaPy DS.Gen.GenMeta DS.Proofs.MetaGenProofs DS.Gen.GenFileOps DS.Proofs.FileOpsGenProofs.
 Import ListNotations.
 Open Scope Z_scope.
 
@@ -184,6 +184,27 @@ Proof.
   split; [exact gen_by_timestamp_agrees|]. split; [exact gen_append_mlog_agrees | exact gen_delete_snapshot_agrees].
 Qed.
 Print Assumptions C15_mutators_regenerated.
+
+(* ... and so are the steps of a file transaction: the partitioning of the queued operations and the file / metadata-only
+   dispatch (Transaction.commit), the base snapshot's manifests (PyRaise = dangling current_snapshot_id: the commit
+   aborts), the delete rewrite that carries manifests into the new snapshot -- untouched manifests as they are, partially
+   deleted ones rewritten with the survivors as EXISTING entries keeping their adding snapshot and sequence number,
+   fully deleted ones dropped --, the ADDED manifest of the appended files after them, and the sequence number / parent
+   stamped into the new snapshot (Transaction._commit_file_ops; Gen/GenFileOps.v).  The file manager's contract
+   (reading a manifest returns its entries; create_manifest_file's EXISTING / ADDED entries) is the model's, tied by
+   the correspondence. *)
+Theorem C15_file_ops_regenerated :
+  (forall ops, gen_partition ops = (tx_adds ops, tx_dels ops, tx_expire ops))
+  /\ (forall adds dels : list path, gen_is_file_txn adds dels = false <-> (adds = [] /\ dels = []))
+  /\ (forall m, gen_base_manifests m = match base_manifests m with Some l => PyOk l | None => PyRaise end)
+  /\ (forall ps mfs, gen_final_manifests ps mfs = apply_deletes ps mfs)
+  /\ (forall id sq adds fin, gen_append_manifests id sq adds fin = fin ++ append_manifest id sq adds)
+  /\ (forall m id t ml, seq (new_snap m id t ml) = gen_seq m /\ parent (new_snap m id t ml) = gen_parent m).
+Proof.
+  split; [exact gen_partition_agrees|]. split; [exact gen_is_file_txn_spec|]. split; [exact gen_base_manifests_agrees|].
+  split; [exact gen_final_manifests_agrees|]. split; [exact gen_append_manifests_agrees | exact gen_stamps_agree].
+Qed.
+Print Assumptions C15_file_ops_regenerated.
 
 (* ------------------------------------------------------------------ C09 pieces proved over the same model
    (re-exported by Props/C09.v): lookups by timestamp / by id, and deleting the current snapshot. *)
